@@ -8,4 +8,4 @@ trap 'rm -rf "$S"' EXIT
 rsync -a --exclude .git "${REPO:-/repo}/" "$S/"
 cp /verif/tools/triage/zz_triage_test.go.txt "$S/gen/zz_triage_test.go"
 IN=$(printf '%s\n' "$@")
-cd "$S" && env -u GOWORK -u GOTOOLCHAIN -u GOSUMDB GOFLAGS=-mod=mod GOPROXY=off TRI_GRAMMAR="$G" TRI_INPUTS="$IN" go test -v -vet=off -count=1 -run TestZZTriage ./gen 2>&1 | grep -v "^ok\|^PASS\|^=== RUN\|^--- PASS" || true
+cd "$S" && env -u GOWORK -u GOTOOLCHAIN -u GOSUMDB GOFLAGS=-mod=mod GOPROXY=off TRI_GRAMMAR="$G" TRI_EVENTS="${TRI_EVENTS:-}" TRI_INPUTS="$IN" go test -v -vet=off -count=1 -run TestZZTriage ./gen 2>&1 | grep -v "^ok\|^PASS\|^=== RUN\|^--- PASS" || true
